@@ -175,6 +175,13 @@ def corpus():
         {'snap_c': ['5 BUILT %s PURPOSE=GENERAL' % r1, '8 LAUNCHED PURPOSE=GENERAL'], 'snap_s': [], 'pre': [],
          'ops': [['att', 1], ['ack', True], new(1, 'n'), new(2, 'd'), new(3, 'c0'), new(4, 'c1'), new(6, 'x'), new(7, 'r'), new(9, 'n', 'relay1.exit:80'),
                  new(11, 'later'), ['circ', '5 CLOSED %s PURPOSE=GENERAL REASON=FINISHED' % r1, []], ['ans', 7, 'c0'], ['att', 2], ['att', 1], ['att', None], new(1, 'n')]},
+        # two via-circuit connections started before the SETCONF that installs the internal attacher is acknowledged; the circuit of the
+        # first closes before its stream shows up (left unattached), and the same local port is used again by an unrelated stream
+        {'snap_c': ['5 BUILT %s PURPOSE=GENERAL' % r1, '6 BUILT %s PURPOSE=GENERAL' % r1], 'snap_s': [], 'pre': [],
+         'ops': [['att', 0], ['via', 0, '127.0.0.1', 5001], ['via', 1, '127.0.0.1', 5002], ['ack', True],
+                 ['circ', '5 CLOSED %s PURPOSE=GENERAL REASON=FINISHED' % r1, []], new(1, None), ['ack', True], new(2, None), ['ack', True],
+                 ['strm', '1 CLOSED 0 example.com:80 REASON=END', [], None], new(3, None).__class__(['strm', '3 NEW 0 example.com:80 SOURCE_ADDR=127.0.0.1:5001 PURPOSE=USER', [], None]),
+                 ['ack', True], ['strm', '4 NEW 0 example.com:80 SOURCE_ADDR=127.0.0.1:5002 PURPOSE=USER', [], None]]},
     ]
 
 
